@@ -25,11 +25,11 @@ theorem callAll_disc (s : S) : callAll (errCallers St.disc.code) s = emit .discL
 /-- `_link_error_cb`, with the regenerated table evaluated -/
 theorem linkErrorCb_eq (s : S) : linkErrorCb s =
     match s.st with
-    | .init => ({ s with link := false, inq := [], stage := .idle, st := .disc }, [.linkFailed, .cb .failed])
-    | .conn => ({ s with link := false, inq := [], stage := .idle, st := .disc,
+    | .init => ({ s with link := false, dead := false, inq := [], stage := .idle, st := .disc }, [.linkFailed, .cb .failed])
+    | .conn => ({ s with link := false, dead := false, inq := [], stage := .idle, st := .disc,
                          upd := { s.upd with q := [], locked := false }, parToc := 0, vals := [], connTs := false, exts := if s.fixD21 then [] else s.exts },
                 [.linkFailed, .cb .disconnected, .cb .lost])
-    | .disc => ({ s with link := false, inq := [], stage := .idle, st := .disc }, [.linkFailed, .cb .discLinkError]) := by
+    | .disc => ({ s with link := false, dead := false, inq := [], stage := .idle, st := .disc }, [.linkFailed, .cb .discLinkError]) := by
   cases h : s.st <;>
     simp [linkErrorCb, h, callAll_init, callAll_conn, callAll_disc, emit, disconnectedCall, andThen]
 
@@ -57,14 +57,15 @@ def stageOk (d : Dev) (s : S) : Prop :=
 
 structure CInv (d : Dev) (s : S) : Prop where
   linkDown : s.link = false → s.stage = .idle ∧ s.exts = [] ∧ s.upd.q = [] ∧ s.upd.locked = false ∧ s.inq = []
-  linkSt : s.link = true → (s.st = .init ∧ s.initCb = true ∧ s.stage = .src) ∨ (s.st = .conn ∧ s.initCb = false)
-  linkStage : s.link = true → stageOk d s
+  linkSt : s.link = true → s.dead = false → (s.st = .init ∧ s.initCb = true ∧ s.stage = .src) ∨ (s.st = .conn ∧ s.initCb = false)
+  linkStage : s.link = true → s.dead = false → stageOk d s
   extsNil : s.stage ≠ .ext → s.exts = []
   updIdle : s.stage ≠ .up → s.upd.q = [] ∧ s.upd.locked = false
   fresh : s.link = true → s.stage ≠ .up → s.isUpdated = false
   extGot0 : s.link = true → (s.stage ≠ .ext ∧ s.stage ≠ .up) → s.extGot = 0
   ts : s.connTs = true → s.link = true ∧ s.stage = .up
   fixed : s.fixD21 = true
+  deadSt : s.dead = true → s.link = true ∧ s.st = .disc ∧ s.stage = .src ∧ s.inq = []
 
 
 /-- closes a `CInv` goal for an explicitly computed state -/
@@ -80,11 +81,11 @@ theorem cinv_init (d : Dev) : CInv d S.init := by
 def E : List Out := [.linkFailed, .cb .failed]
 def L : List Out := [.linkFailed, .cb .disconnected, .cb .lost]
 
-theorem err_core (d : Dev) (s : S) (h : CInv d s) (hl : s.link = true) :
+theorem err_core (d : Dev) (s : S) (h : CInv d s) (hl : s.link = true) (hd : s.dead = false) :
     CInv d (linkErrorCb s).1 ∧ phase (linkErrorCb s).1 = .idle ∧
     ((phase s = .req ∧ (linkErrorCb s).2 = E) ∨ (phase s ≠ .req ∧ phase s ≠ .idle ∧ (linkErrorCb s).2 = L)) := by
-  obtain ⟨h1, h2, h3, h4, h5, h6, h7, h8, h9⟩ := h
-  have h2' := h2 hl
+  obtain ⟨h1, h2, h3, h4, h5, h6, h7, h8, h9, h10⟩ := h
+  have h2' := h2 hl hd
   rw [linkErrorCb_eq]
   cases hs : s.st
   · simp [hs] at h2'
@@ -99,12 +100,13 @@ theorem err_core (d : Dev) (s : S) (h : CInv d s) (hl : s.link = true) :
     · right; simp only [phase, hl, hs, L]; grind
 
 /-- core operation kinds -/
-inductive CK | openOk | openNo | deliver | work | err | close
+inductive CK | openOk | openNo | openFail | deliver | work | err | close
   deriving DecidableEq, Repr
 
 def coreRun (d : Dev) (s : S) : CK → R
-  | .openOk => openLink true s
-  | .openNo => openLink false s
+  | .openOk => openLink .ok s
+  | .openNo => openLink .missing s
+  | .openFail => openLink .failing s
   | .deliver => deliver d s
   | .work => work s
   | .err => linkErrorCb s
@@ -114,6 +116,7 @@ def coreRun (d : Dev) (s : S) : CK → R
 def shapes : CK → Ph → List (List Out × Ph)
   | .openNo, _ => [([.cb .requested, .cb .failed], .idle)]
   | .openOk, _ => [([.cb .requested], .req), (.cb .requested :: E, .idle)]
+  | .openFail, _ => [(.cb .requested :: E, .idle)]
   | .deliver, .idle => [([], .idle)]
   | .deliver, .req => [([.cb .established], .est), (.cb .established :: L, .idle)]
   | .deliver, .est => [([], .est), (L, .idle), ([.cb .connected], .con)]
@@ -128,26 +131,26 @@ def shapes : CK → Ph → List (List Out × Ph)
   | .close, .req => [([.cb .disconnected], .idle), (E ++ [.cb .disconnected], .idle)]
   | .close, _ => [([.cb .disconnected], .idle), (L ++ [.cb .disconnected], .idle)]
 
-theorem send_ok (r : Option Pkt) (s : S) (hl : s.link = true) (ha : s.armed = false) :
+theorem send_ok (r : Option Pkt) (s : S) (hl : s.link = true) (hd : s.dead = false) (ha : s.armed = false) :
     send r s = ({ s with inq := s.inq ++ r.toList }, []) := by
-  simp [send, hl, ha, pureS]
+  simp [send, hl, hd, ha, pureS]
 
-theorem send_fail (r : Option Pkt) (s : S) (hl : s.link = true) (ha : s.armed = true) :
+theorem send_fail (r : Option Pkt) (s : S) (hl : s.link = true) (hd : s.dead = false) (ha : s.armed = true) :
     send r s = linkErrorCb { s with armed := false } := by
-  simp [send, hl, ha]
+  simp [send, hl, hd, ha]
 
-theorem deliver_init (d : Dev) (s : S) (h : CInv d s) (hl : s.link = true) (hs : s.st = .init) :
+theorem deliver_init (d : Dev) (s : S) (h : CInv d s) (hl : s.link = true) (hd : s.dead = false) (hs : s.st = .init) :
     CInv d (deliver d s).1 ∧ ((deliver d s).2, phase (deliver d s).1) ∈ shapes .deliver .req := by
-  obtain ⟨h1, h2, h3, h4, h5, h6, h7, h8, h9⟩ := h
-  have h2' := h2 hl
-  have h3' := h3 hl
+  obtain ⟨h1, h2, h3, h4, h5, h6, h7, h8, h9, h10⟩ := h
+  have h2' := h2 hl hd
+  have h3' := h3 hl hd
   simp only [hs, true_and, reduceCtorEq, false_and, or_false] at h2'
   obtain ⟨hcb, hstage⟩ := h2'
   simp only [stageOk, hstage] at h3'
   obtain ⟨hinq, hpar⟩ := h3'
-  obtain ⟨st, link, initCb, inq, armed, stage, upd, exts, parToc, vals, isUpdated, connTs, logGot, extGot, fx⟩ := s
+  obtain ⟨st, link, initCb, inq, armed, stage, upd, exts, parToc, vals, isUpdated, connTs, logGot, extGot, dead, fx⟩ := s
   simp only at *
-  subst hl hs hcb hstage hinq hpar
+  subst hl hd hs hcb hstage hinq hpar
   cases armed <;> cases hm : d.magic <;>
     simp [deliver, chainPacket, startLog, send, linkErrorCb_eq, emit, andThen, pureS, hm, shapes, phase, E, L] <;>
     constructor <;> grind [stageOk]
@@ -163,21 +166,21 @@ theorem extIdsFrom_length_le (i : Nat) (bs : List Bool) : (extIdsFrom i bs).leng
 
 theorem extIds_length_le (d : Dev) : d.extIds.length ≤ d.nPar := extIdsFrom_length_le 0 d.ext
 
-theorem deliver_chain (d : Dev) (s : S) (h : CInv d s) (hl : s.link = true) (hs : s.st = .conn)
+theorem deliver_chain (d : Dev) (s : S) (h : CInv d s) (hl : s.link = true) (hd : s.dead = false) (hs : s.st = .conn)
     (hne : s.stage ≠ .ext) (hnu : s.stage ≠ .up) :
     CInv d (deliver d s).1 ∧ ((deliver d s).2, phase (deliver d s).1) ∈ shapes .deliver .est ∧
     (.cb .connected ∈ (deliver d s).2 → complete d (deliver d s).1) ∧ .cb .fully ∉ (deliver d s).2 := by
-  obtain ⟨h1, h2, h3, h4, h5, h6, h7, h8, h9⟩ := h
-  have h2' := h2 hl
-  have h3' := h3 hl
+  obtain ⟨h1, h2, h3, h4, h5, h6, h7, h8, h9, h10⟩ := h
+  have h2' := h2 hl hd
+  have h3' := h3 hl hd
   have h4' := h4 hne
   have h5' := h5 hnu
   have h7' := h7 hl ⟨hne, hnu⟩
   simp only [hs, true_and, reduceCtorEq, false_and, false_or] at h2'
-  obtain ⟨st, link, initCb, inq, armed, stage, upd, exts, parToc, vals, isUpdated, connTs, logGot, extGot, fx⟩ := s
+  obtain ⟨st, link, initCb, inq, armed, stage, upd, exts, parToc, vals, isUpdated, connTs, logGot, extGot, dead, fx⟩ := s
   obtain ⟨q, locked, pat⟩ := upd
   simp only at *
-  subst hl hs h2' h4' h7'
+  subst hl hd hs h2' h4' h7'
   obtain ⟨hq, hlk⟩ := h5'
   subst hq hlk
   have hext := extIds_length_le d
@@ -198,19 +201,19 @@ theorem deliver_chain (d : Dev) (s : S) (h : CInv d s) (hl : s.link = true) (hs 
       | (simp [shapes, phase, E, L, complete]; done)
       | (simp [shapes, phase, E, L, complete, List.isEmpty_iff] at * <;> grind)))
 
-theorem deliver_ext (d : Dev) (s : S) (h : CInv d s) (hl : s.link = true) (hs : s.st = .conn) (hst : s.stage = .ext) :
+theorem deliver_ext (d : Dev) (s : S) (h : CInv d s) (hl : s.link = true) (hd : s.dead = false) (hs : s.st = .conn) (hst : s.stage = .ext) :
     CInv d (deliver d s).1 ∧ ((deliver d s).2, phase (deliver d s).1) ∈ shapes .deliver .est ∧
     (.cb .connected ∈ (deliver d s).2 → complete d (deliver d s).1) ∧ .cb .fully ∉ (deliver d s).2 := by
-  obtain ⟨h1, h2, h3, h4, h5, h6, h7, h8, h9⟩ := h
-  have h2' := h2 hl
-  have h3' := h3 hl
+  obtain ⟨h1, h2, h3, h4, h5, h6, h7, h8, h9, h10⟩ := h
+  have h2' := h2 hl hd
+  have h3' := h3 hl hd
   have h5' := h5 (by simp [hst])
   have h6' := h6 hl (by simp [hst])
   simp only [hs, true_and, reduceCtorEq, false_and, false_or] at h2'
-  obtain ⟨st, link, initCb, inq, armed, stage, upd, exts, parToc, vals, isUpdated, connTs, logGot, extGot, fx⟩ := s
+  obtain ⟨st, link, initCb, inq, armed, stage, upd, exts, parToc, vals, isUpdated, connTs, logGot, extGot, dead, fx⟩ := s
   obtain ⟨q, locked, pat⟩ := upd
   simp only at *
-  subst hl hs h2' hst h6'
+  subst hl hd hs h2' hst h6'
   obtain ⟨hq, hlk⟩ := h5'
   subst hq hlk
   simp only [stageOk] at h3'
@@ -235,18 +238,18 @@ theorem deliver_ext (d : Dev) (s : S) (h : CInv d s) (hl : s.link = true) (hs : 
     · simp [deliver, extPacket, extAll, extOne, emit, andThen, pureS, shapes, phase, hlast]
       constructor <;> simp <;> grind [stageOk, extOk]
 
-theorem deliver_up (d : Dev) (s : S) (h : CInv d s) (hl : s.link = true) (hs : s.st = .conn) (hst : s.stage = .up) :
+theorem deliver_up (d : Dev) (s : S) (h : CInv d s) (hl : s.link = true) (hd : s.dead = false) (hs : s.st = .conn) (hst : s.stage = .up) :
     CInv d (deliver d s).1 ∧ ((deliver d s).2, phase (deliver d s).1) ∈ shapes .deliver (phase s) ∧
     .cb .connected ∉ (deliver d s).2 ∧ (.cb .fully ∈ (deliver d s).2 → allVals d (deliver d s).1) := by
-  obtain ⟨h1, h2, h3, h4, h5, h6, h7, h8, h9⟩ := h
-  have h2' := h2 hl
-  have h3' := h3 hl
+  obtain ⟨h1, h2, h3, h4, h5, h6, h7, h8, h9, h10⟩ := h
+  have h2' := h2 hl hd
+  have h3' := h3 hl hd
   have h4' := h4 (by simp [hst])
   simp only [hs, true_and, reduceCtorEq, false_and, false_or] at h2'
-  obtain ⟨st, link, initCb, inq, armed, stage, upd, exts, parToc, vals, isUpdated, connTs, logGot, extGot, fx⟩ := s
+  obtain ⟨st, link, initCb, inq, armed, stage, upd, exts, parToc, vals, isUpdated, connTs, logGot, extGot, dead, fx⟩ := s
   obtain ⟨q, locked, pat⟩ := upd
   simp only at *
-  subst hl hs h2' hst h4'
+  subst hl hd hs h2' hst h4'
   simp only [stageOk, updOk] at h3'
   obtain ⟨hlog, hpar, hext, hu1, hu2⟩ := h3'
   cases locked
@@ -280,28 +283,35 @@ theorem deliver_core (d : Dev) (s : S) (h : CInv d s) :
   · have : deliver d s = (s, []) := by simp [deliver, hl, pureS]
     rw [this, phase_down s hl]
     exact ⟨h, by simp [shapes], by simp, by simp⟩
-  · cases hs : s.st
-    · have := h.linkSt hl; simp [hs] at this
-    · have := deliver_init d s h hl hs
+  · cases hd : s.dead
+    case true =>
+      obtain ⟨_, hst, _, hinq⟩ := h.deadSt hd
+      have : deliver d s = (s, []) := by simp [deliver, hl, hinq, pureS]
+      have hp : phase s = .idle := by simp [phase, hl, hst]
+      rw [this, hp]
+      exact ⟨h, by simp [shapes], by simp, by simp⟩
+    cases hs : s.st
+    · have := h.linkSt hl hd; simp [hs] at this
+    · have := deliver_init d s h hl hd hs
       rw [phase_init s hl hs]
       refine ⟨this.1, this.2, ?_, ?_⟩ <;> intro hm <;> have h2 := this.2 <;>
         simp only [shapes, List.mem_cons, Prod.mk.injEq, List.not_mem_nil, or_false] at h2 <;>
         rcases h2 with ⟨h2, _⟩ | ⟨h2, _⟩ <;> rw [h2] at hm <;> simp [L] at hm
     · by_cases hu : s.stage = .up
-      · have := deliver_up d s h hl hs hu
+      · have := deliver_up d s h hl hd hs hu
         exact ⟨this.1, this.2.1, fun hm => absurd hm this.2.2.1, this.2.2.2⟩
       · rw [phase_est s hl hs hu]
         by_cases he : s.stage = .ext
-        · have := deliver_ext d s h hl hs he
+        · have := deliver_ext d s h hl hd hs he
           exact ⟨this.1, this.2.1, this.2.2.1, fun hm => absurd hm this.2.2.2⟩
-        · have := deliver_chain d s h hl hs he hu
+        · have := deliver_chain d s h hl hd hs he hu
           exact ⟨this.1, this.2.1, this.2.2.1, fun hm => absurd hm this.2.2.2⟩
 
 theorem work_core (d : Dev) (s : S) (h : CInv d s) :
     CInv d (work s).1 ∧ ((work s).2, phase (work s).1) ∈ shapes .work (phase s) ∧
     .cb .connected ∉ (work s).2 ∧ .cb .fully ∉ (work s).2 := by
-  obtain ⟨h1, h2, h3, h4, h5, h6, h7, h8, h9⟩ := h
-  obtain ⟨st, link, initCb, inq, armed, stage, upd, exts, parToc, vals, isUpdated, connTs, logGot, extGot, fx⟩ := s
+  obtain ⟨h1, h2, h3, h4, h5, h6, h7, h8, h9, h10⟩ := h
+  obtain ⟨st, link, initCb, inq, armed, stage, upd, exts, parToc, vals, isUpdated, connTs, logGot, extGot, dead, fx⟩ := s
   obtain ⟨q, locked, pat⟩ := upd
   simp only at *
   cases link
@@ -309,8 +319,17 @@ theorem work_core (d : Dev) (s : S) (h : CInv d s) :
     subst a b c e f
     simp [work, workExt, pureS, shapes, phase]
     cinv_tac
-  · have h2' := h2 rfl
-    have h3' := h3 rfl
+  · cases dead
+    case true =>
+      obtain ⟨_, hst, hsg, hinq⟩ := h10 rfl
+      subst hst hsg hinq
+      obtain ⟨hq, hlk⟩ := h5 (by simp)
+      have hex := h4 (by simp)
+      subst hq hlk hex
+      simp [work, workExt, pureS, shapes, phase]
+      cinv_tac
+    have h2' := h2 rfl rfl
+    have h3' := h3 rfl rfl
     by_cases hu : stage = .up
     · subst hu
       have h4' := h4 (by simp)
@@ -368,30 +387,54 @@ theorem work_core (d : Dev) (s : S) (h : CInv d s) :
           · subst a b c; simp [shapes, phase]
           · subst a b; simp [shapes, phase, hu]
 
-theorem open_core (d : Dev) (s : S) (f : Bool) (h : CInv d s) (hl : s.link = false) :
+def ckOf : Drv → CK
+  | .ok => .openOk
+  | .missing => .openNo
+  | .failing => .openFail
+
+theorem open_core (d : Dev) (s : S) (f : Drv) (h : CInv d s) (hl : s.link = false ∨ s.dead = true) :
     CInv d (openLink f s).1 ∧
-    ((openLink f s).2, phase (openLink f s).1) ∈ shapes (if f then .openOk else .openNo) (phase s) := by
-  obtain ⟨h1, h2, h3, h4, h5, h6, h7, h8, h9⟩ := h
-  obtain ⟨st, link, initCb, inq, armed, stage, upd, exts, parToc, vals, isUpdated, connTs, logGot, extGot, fx⟩ := s
+    ((openLink f s).2, phase (openLink f s).1) ∈ shapes (ckOf f) (phase s) := by
+  obtain ⟨h1, h2, h3, h4, h5, h6, h7, h8, h9, h10⟩ := h
+  obtain ⟨st, link, initCb, inq, armed, stage, upd, exts, parToc, vals, isUpdated, connTs, logGot, extGot, dead, fx⟩ := s
   obtain ⟨q, locked, pat⟩ := upd
   simp only at *
-  subst hl
-  obtain ⟨a, b, c, e, g⟩ := h1 rfl
-  subst a b c e g
-  cases f <;> cases armed <;>
-    simp [openLink, send, linkErrorCb_eq, emit, andThen, pureS, shapes, phase, E] <;>
-    cinv_tac
+  cases dead
+  · have hl' : link = false := by rcases hl with h | h <;> simp_all
+    subst hl'
+    obtain ⟨a, b, c, e, g⟩ := h1 rfl
+    subst a b c e g
+    cases f <;> cases armed <;>
+      simp [openLink, send, linkErrorCb_eq, emit, andThen, pureS, shapes, phase, E, ckOf] <;>
+      cinv_tac
+  · obtain ⟨hlk, hst, hsg, hinq⟩ := h10 rfl
+    subst hlk hst hsg hinq
+    obtain ⟨hq, hlk2⟩ := h5 (by simp)
+    have hex := h4 (by simp)
+    subst hq hlk2 hex
+    cases f <;> cases armed <;>
+      simp [openLink, send, linkErrorCb_eq, emit, andThen, pureS, shapes, phase, E, ckOf] <;>
+      cinv_tac
 
 theorem close_core (d : Dev) (s : S) (h : CInv d s) :
     CInv d (closeLink s).1 ∧ ((closeLink s).2, phase (closeLink s).1) ∈ shapes .close (phase s) := by
-  obtain ⟨h1, h2, h3, h4, h5, h6, h7, h8, h9⟩ := h
-  obtain ⟨st, link, initCb, inq, armed, stage, upd, exts, parToc, vals, isUpdated, connTs, logGot, extGot, fx⟩ := s
+  obtain ⟨h1, h2, h3, h4, h5, h6, h7, h8, h9, h10⟩ := h
+  obtain ⟨st, link, initCb, inq, armed, stage, upd, exts, parToc, vals, isUpdated, connTs, logGot, extGot, dead, fx⟩ := s
   obtain ⟨q, locked, pat⟩ := upd
   simp only at *
   cases link
   · simp [closeLink, send, disconnectedCall, emit, andThen, pureS, shapes, phase]
     cinv_tac
-  · have h2' := h2 rfl
+  · cases dead
+    case true =>
+      obtain ⟨_, hst, hsg, hinq⟩ := h10 rfl
+      subst hst hsg hinq
+      obtain ⟨hq, hlk⟩ := h5 (by simp)
+      have hex := h4 (by simp)
+      subst hq hlk hex
+      simp [closeLink, send, disconnectedCall, emit, andThen, pureS, shapes, phase]
+      cinv_tac
+    have h2' := h2 rfl rfl
     rcases h2' with ⟨a, b, c⟩ | ⟨a, b⟩
     · subst a b c
       cases armed <;>
@@ -455,13 +498,13 @@ theorem step_eq (d : Dev) (s : Sys) (op : Op) :
 /-- possible (outputs, next phase) of the core part of each operation -/
 def shapesOp (op : Op) (ph : Ph) (isOpen : Bool) : List (List Out × Ph) :=
   match op with
-  | .open f => shapes (if f then .openOk else .openNo) ph
+  | .open f => shapes (ckOf f) ph
   | .deliver => shapes .deliver ph
   | .work => shapes .work ph
   | .err => shapes .err ph
   | .arm => [([], ph)]
   | .close => shapes .close ph
-  | .syncOpen f => if isOpen then [([], ph)] else shapes (if f then .openOk else .openNo) ph
+  | .syncOpen f => if isOpen then [([], ph)] else shapes (ckOf f) ph
   | .syncClose => if isOpen then shapes .close ph else [([], ph)]
 
 def allowedW (w : Wrap) (ph : Ph) : Op → Bool
@@ -481,20 +524,11 @@ def checkOp (w : Wrap) (ph : Ph) (op : Op) : Bool :=
     let x := stepW w op sh.1
     wOk x.1 sh.2 && ((wfOp (absW ph w) op).bind (wfOuts · x.2) == some (absW sh.2 x.1))
 
-def allOps : List Op :=
-  [.open true, .open false, .deliver, .work, .err, .arm, .close, .syncOpen true, .syncOpen false, .syncClose]
-
-theorem allOps_complete (op : Op) : op ∈ allOps := by
-  cases op <;> (try rename_i f; cases f) <;> simp [allOps]
-
 set_option maxRecDepth 100000 in
 theorem check_all (a b c e f g h i j : Bool) (ph : Ph) (op : Op) :
-    let w : Wrap := ⟨a, b, c, e, f, g, h, i, j⟩
-    wOk w ph = true → allowedW w ph op = true → checkOp w ph op = true := by
-  have hop := allOps_complete op
-  revert hop op
-  simp only [allOps, List.mem_cons, List.not_mem_nil, or_false, forall_eq_or_imp, forall_eq]
-  cases ph <;> revert a b c e f g h i j <;> decide
+    wOk ⟨a, b, c, e, f, g, h, i, j⟩ ph = true → allowedW ⟨a, b, c, e, f, g, h, i, j⟩ ph op = true →
+      checkOp ⟨a, b, c, e, f, g, h, i, j⟩ ph op = true := by
+  cases op <;> (try (rename_i dv; cases dv)) <;> cases ph <;> revert a b c e f g h i j <;> decide
 
 
 /-! ## Part C: gluing the core invariant and the finite check -/
@@ -505,14 +539,18 @@ structure SInv (d : Dev) (s : Sys) : Prop where
 
 theorem sinv_init (d : Dev) : SInv d Sys.init := ⟨cinv_init d, by decide⟩
 
-theorem phase_linked {d : Dev} {c : S} (h : CInv d c) : (phase c).linked = c.link := by
+/-- the phase is `idle` exactly when there is no live link -/
+theorem phase_linked {d : Dev} {c : S} (h : CInv d c) : (phase c).linked = (c.link && !c.dead) := by
   cases hl : c.link
   · simp [phase, hl, Ph.linked]
-  · rcases h.linkSt hl with ⟨a, _, _⟩ | ⟨a, _⟩ <;> simp only [phase, hl, a, if_true]
-    · rfl
-    · split
-      · split <;> rfl
+  · cases hd : c.dead
+    · rcases h.linkSt hl hd with ⟨a, _, _⟩ | ⟨a, _⟩ <;> simp only [phase, hl, a, if_true]
       · rfl
+      · split
+        · split <;> rfl
+        · rfl
+    · obtain ⟨_, hst, _, _⟩ := h.deadSt hd
+      simp [phase, hl, hst, Ph.linked]
 
 theorem allowed_abs {d : Dev} {s : Sys} (h : SInv d s) (op : Op) (ha : allowed s op = true) :
     allowedW s.w (phase s.c) op = true := by
@@ -536,17 +574,17 @@ theorem core_shape (d : Dev) (s : Sys) (op : Op) (h : SInv d s) (ha : allowed s 
     exact ⟨fun x => absurd x this.1, fun x => absurd x this.2⟩
   cases op with
   | «open» f =>
-    have hl : s.c.link = false := by simp [allowed] at ha; exact ha.1
+    have hl : s.c.link = false ∨ s.c.dead = true := by simp [allowed] at ha; exact ha.1
     have := open_core d s.c f hc hl
     refine ⟨this.1, this.2, ?_⟩
-    exact noc _ _ (by cases f <;> simp) this.2
+    exact noc _ _ (by cases f <;> simp [ckOf]) this.2
   | deliver => exact deliver_core d s.c hc
   | work =>
     have := work_core d s.c hc
     exact ⟨this.1, this.2.1, fun x => absurd x this.2.2.1, fun x => absurd x this.2.2.2⟩
   | err =>
-    have hl : s.c.link = true := by simpa [allowed] using ha
-    have := err_core d s.c hc hl
+    have hl : s.c.link = true ∧ s.c.dead = false := by simpa [allowed] using ha
+    have := err_core d s.c hc hl.1 hl.2
     refine ⟨this.1, ?_, ?_⟩
     · simp only [coreOf, shapesOp, this.2.1]
       rcases this.2.2 with ⟨a, b⟩ | ⟨a, a', b⟩
@@ -560,7 +598,7 @@ theorem core_shape (d : Dev) (s : Sys) (op : Op) (h : SInv d s) (ha : allowed s 
       exact noc .err _ (by simp) hm
   | arm =>
     refine ⟨?_, ?_, by simp [coreOf], by simp [coreOf]⟩
-    · obtain ⟨h1, h2, h3, h4, h5, h6, h7, h8, h9⟩ := hc
+    · obtain ⟨h1, h2, h3, h4, h5, h6, h7, h8, h9, h10⟩ := hc
       constructor <;> simp only [coreOf] <;> first | assumption | (intro hl; have := h3 hl; simpa [stageOk, updOk, extOk] using this)
     · simp only [coreOf, shapesOp, List.mem_singleton]; rfl
   | close =>
@@ -568,10 +606,10 @@ theorem core_shape (d : Dev) (s : Sys) (op : Op) (h : SInv d s) (ha : allowed s 
     exact ⟨this.1, this.2, noc .close _ (by simp) this.2⟩
   | syncOpen f =>
     cases ho : s.w.isOpen
-    · have hl : s.c.link = false := by simp [allowed, ho] at ha; exact ha.1
+    · have hl : s.c.link = false ∨ s.c.dead = true := by simp [allowed, ho] at ha; exact ha.1
       have := open_core d s.c f hc hl
       simp only [coreOf, shapesOp, ho, Bool.false_eq_true, if_false]
-      exact ⟨this.1, this.2, noc _ _ (by cases f <;> simp) this.2⟩
+      exact ⟨this.1, this.2, noc _ _ (by cases f <;> simp [ckOf]) this.2⟩
     · simp only [coreOf, shapesOp, if_true]
       exact ⟨hc, by simp, by simp, by simp⟩
   | syncClose =>
@@ -670,18 +708,22 @@ theorem wOk_idle (w : Wrap) (h : wOk w .idle = true) : w = { fixD1 := true } := 
 
 /-- re-opening after any history = opening a fresh object, up to the inert `_lock_pattern` -/
 theorem reopen_eq (d : Dev) (c : S) (h : CInv d c) (hl : c.link = false) (ha : c.armed = false) :
-    (openLink true c).1 = { (openLink true S.init).1 with upd := { q := [], locked := false, pat := c.upd.pat } } ∧
-    (openLink true c).2 = (openLink true S.init).2 := by
-  obtain ⟨h1, h2, h3, h4, h5, h6, h7, h8, h9⟩ := h
+    (openLink .ok c).1 = { (openLink .ok S.init).1 with upd := { q := [], locked := false, pat := c.upd.pat } } ∧
+    (openLink .ok c).2 = (openLink .ok S.init).2 := by
+  obtain ⟨h1, h2, h3, h4, h5, h6, h7, h8, h9, h10⟩ := h
   obtain ⟨x1, x2, x3, x4, x5⟩ := h1 hl
+  have hd : c.dead = false := by
+    cases hc : c.dead
+    · rfl
+    · have := (h10 hc).1; rw [hl] at this; cases this
   have hts : c.connTs = false := by
     cases hc : c.connTs
     · rfl
     · have := (h8 hc).1; rw [hl] at this; cases this
-  obtain ⟨st, link, initCb, inq, armed, stage, upd, exts, parToc, vals, isUpdated, connTs, logGot, extGot, fx⟩ := c
+  obtain ⟨st, link, initCb, inq, armed, stage, upd, exts, parToc, vals, isUpdated, connTs, logGot, extGot, dead, fx⟩ := c
   obtain ⟨q, locked, pat⟩ := upd
   simp only at *
-  subst hl ha x1 x2 x3 x4 x5 hts h9
+  subst hl hd ha x1 x2 x3 x4 x5 hts h9
   simp [openLink, send, emit, andThen, pureS, S.init]
   decide
 
